@@ -162,7 +162,7 @@ def generate(ctx, escalate=False):
         n *= 3
     out = []
     for i in range(n):
-        proto = rng.choice(["udp", "udp", "tcp", "tcp", "ws"])
+        proto = rng.choice(["udp", "udp", "tcp", "tcp", "ws", "ws", "dtls", "tls", "wss"])     # D17: secured = plain framing
         big = rng.random() < (0.05 if ctx.thorough() else 0.02)
         code, ops = gen_script(rng, big)
         c = rng.random()
@@ -272,7 +272,7 @@ def s_alts(s):
 
 def d3(proto, dump):
     """D3: on reliable transports type and mid read back as 0"""
-    if proto == "udp":
+    if proto in ("udp", "dtls"):
         return dump
     w = dump.split(" ")
     return " ".join(["t=0" if x.startswith("t=") else "m=0" if x.startswith("m=") else x for x in w])
